@@ -1,5 +1,5 @@
 _Q = {}
-_T = {"noneq_scalar": "0"}
+_T = {}
 _FORMS = ["in", "in_not", "exists", "exists_not", "scalar_agg", "scalar_row"]
 ENTRY = {
     "level": "proof",
